@@ -76,7 +76,8 @@ void property(const pbt::Tape& t, pbt::Ctx& ctx) {
     pbt::Reader g(t[0]); Opts o;
     o.integ = g.pick(10);
     { static const char* force = getenv("C19_INTEG"); if (force) o.integ = atoi(force); }   // debugging aid only
-    { int fk = g.pick(4); double fv = g.real(0.05, 2.5); if (fk) { o.hasFinal = true; o.tFinal = fk == 3 ? 0.05 + 0.1 * fv : fv; if (fk == 2) o.tFinal = 0.0; } }   // fk==2: final == initial time (offset by t0 below)
+    { int fk = g.pick(8); double fv = g.real(0.05, 2.5);   // 0,4,5: no final time; 1,6: random; 3,7: short; 2: final == initial time (t0 added below)
+      if (fk == 1 || fk == 6) { o.hasFinal = true; o.tFinal = fv; } else if (fk == 3 || fk == 7) { o.hasFinal = true; o.tFinal = 0.05 + 0.1 * fv; } else if (fk == 2) { o.hasFinal = true; o.tFinal = 0.0; } }
     o.every = g.chance(1, 3);
     { uint32_t w = g.w(); if (w % 3 == 1) o.limit = 1 + (w >> 8) % 5; }
     o.interp = !g.chance(1, 3);
@@ -85,6 +86,11 @@ void property(const pbt::Tape& t, pbt::Ctx& ctx) {
     o.infNorm = g.chance(1, 4);
     std::vector<anasys::Witness> wits; anasys::Spec spec = makeSpec(g, wits);
     if (o.hasFinal) o.tFinal += spec.t0;
+    // Triggered events under CPodes are left to C22: with witnesses CPodes shows further deviations of its own (trigger pre-state
+    // 1 ulp EARLIER than a report already returned at the crossing time; report time inside the reported window; CPODES'
+    // internal time beyond the event window defeats the fake stop time) -- see notes/C19.md. The event-window clause of the
+    // statement is therefore decided for the eight AbstractIntegratorRep integrators only.
+    if (o.isCPodes()) wits.clear();
     const double seeStep = o.fixed ? o.h : 0.01;
     const bool fixedStep = o.fixed || o.integ == 6;
 
@@ -174,6 +180,9 @@ void property(const pbt::Tape& t, pbt::Ctx& ctx) {
             case 17: report = taNow; break;
             case 18: report = tNow + 1e-12 * (1 + 999 * q.rv); break;
             case 19: report = tNow + 0.5 + q.rv; break;
+            case 7: case 8:   // aim at an event: a report just before / exactly at a witness's (first) crossing time
+                if (!wits.empty()) { const anasys::Witness& w = wits[q.mod % wits.size()]; double d = (q.mod >> 3) % 4 == 0 ? 0.0 : std::pow(10.0, -3 - 8 * q.rv); report = w.c - d; if (!(report > tNow)) report = tNow + 0.3 * q.rv; break; }
+                // fall through
             default: report = tNow + 0.3 * q.rv;
         }
         if (!(report >= tNow)) report = tNow;
@@ -185,6 +194,9 @@ void property(const pbt::Tape& t, pbt::Ctx& ctx) {
             case 8: sched = lo; break;
             case 9: case 10: sched = lo + 0.4 * q.sv; break;
             case 11: sched = o.tFinal; break;
+            case 5:           // a scheduled event just after / exactly at a witness's crossing time
+                if (!wits.empty()) { const anasys::Witness& w = wits[(q.mod >> 5) % wits.size()]; double d = (q.mod >> 8) % 4 == 0 ? 0.0 : std::pow(10.0, -3 - 8 * q.sv); sched = w.c + d; if (!(sched >= lo)) sched = Inf; break; }
+                // fall through
             default: sched = Inf;
         }
         if (!(sched >= lo)) sched = lo;
@@ -202,6 +214,7 @@ void property(const pbt::Tape& t, pbt::Ctx& ctx) {
             if (fakeArmed && std::min(report, sched) >= o.tFinal && ctx.known("cpodes-stale-fake-tstop")) { ctx.label("excluded:cpodes-stale-fake-tstop"); stoppedKnown = true; break; }
             if (std::min(report, sched) < o.tFinal) fakeArmed = true;
         }
+        if (useStepBy) ctx.label("op:stepBy");
         const int steps0 = integ->getNumStepsTaken();
         St st; bool threw = false; std::string what;
         try { st = useStepBy ? integ->stepBy(interval, lim) : integ->stepTo(report, sched); }
@@ -268,7 +281,14 @@ void property(const pbt::Tape& t, pbt::Ctx& ctx) {
                 if (wits.empty()) { bad("ReachedEventTrigger without any witness function"); break; }
                 Vec2 w = integ->getEventWindow();
                 if (w[0] != tt) bad("event window low != returned time"); else if (w[1] != ta) bad("event window high != advanced time"); else if (!(w[0] < w[1])) bad("empty event window");
-                for (double x : {report, sched, o.tFinal}) if (x > w[0] && x < w[1]) bad("a report/scheduled/final time lies strictly inside the event window");
+                for (double x : {sched, o.tFinal}) if (x > w[0] && x < w[1]) bad("a scheduled/final time lies strictly inside the event window");
+                if (report > w[0] && report < w[1]) {
+                    // known finding event-window-later-report-inside: the window was localized in an EARLIER call (no internal step
+                    // in this one: the trigger was pending behind an interpolated report at tLow) against the report time of that
+                    // call; the report time of the present call was unknown then and may fall inside the window
+                    if (dSteps == 0 && ctx.known("event-window-later-report-inside")) ctx.label("excluded:event-window-later-report-inside");
+                    else bad("the report time lies strictly inside the event window");
+                }
                 if (sched < w[1] || o.tFinal < w[1]) bad("scheduled/final time before the end of the event window");
                 if (integ->getTriggeredEvents().empty()) bad("ReachedEventTrigger with no triggered events");
                 break; }
@@ -288,6 +308,7 @@ void property(const pbt::Tape& t, pbt::Ctx& ctx) {
             std::vector<double> ye = sol.eval(tt), y = anasys::AnaSystem::yOf(integ->getState()); double e = 0, sc = std::max(1.0, sol.scale(tt));
             for (size_t i = 0; i < y.size(); ++i) e = std::max(e, std::abs(y[i] - ye[i]) / sc);
             worstErr = std::max(worstErr, e);
+            if (ctx.wantDesc) ctx.desc << "        state error vs analytic (scaled) " << e << "  last step size " << integ->getPreviousStepSizeTaken() << " next " << integ->getPredictedNextStepSize() << "\n";
         }
         if (!why.empty()) {
             std::ostringstream m; m.precision(17);
@@ -314,7 +335,9 @@ void property(const pbt::Tape& t, pbt::Ctx& ctx) {
     // loose state check, only for error-controlled variable-step runs (fixed steps may be arbitrarily inaccurate)
     {
         static const bool calib = getenv("C19_CALIB") != nullptr;
-        const bool judged = !fixedStep && o.accSet && o.acc <= 1e-4 && o.integ != 5 && o.integ != 7;   // order >= 2, error controlled
+        // order >= 2, error controlled; CPodes is left to C20 (its Adams variant loses accuracy after a tiny forced step with
+        // interpolation off: known finding cpodes-adams-tiny-step-accuracy-loss of C20, first seen here as a 0.11 error at accuracy 2e-5)
+        const bool judged = !fixedStep && o.accSet && o.acc <= 1e-4 && o.integ != 5 && o.integ != 7 && !cp;
         if (calib && judged) { char b[64]; snprintf(b, sizeof b, "calib:%s:1e%+03d", integName(o.integ), (int)std::floor(std::log10(worstErr + 1e-30))); ctx.label(b); fprintf(stderr, "CAL %s %g\n", integName(o.integ), worstErr); }
         if (judged && !calib) { ctx.label("state-vs-analytic-judged"); ctx.check(worstErr <= StateTol, std::string(integName(o.integ)) + ": returned state differs from the analytic solution at the returned time by " + pbt::str(worstErr) + " (scaled), tolerance " + pbt::str(StateTol)); }
     }
@@ -323,10 +346,58 @@ void property(const pbt::Tape& t, pbt::Ctx& ctx) {
     ctx.nontrivial(classes >= 2);
 }
 
+anasys::Spec oscSpec(double w) { anasys::Spec s; s.oscs.push_back({w}); s.q0.push_back(1.0); s.u0.push_back(0.0); return s; }
+
 pbt::Config config() {
     pbt::Config c; c.prop = "C19"; c.K = 12; c.minUnits = 3; c.caseTimeoutSecs = 60;
-    c.quick = {1500, 20000, 40, 8}; c.thorough = {20000, 400000, 40, 240};
-    c.rule = "rapidcheck tape -> (integrator of 10, options, analytic system, <=40 requests)";
+    c.quick = {4000, 25000, 40, 10}; c.thorough = {30000, 150000, 40, 200};
+    c.rule = "rapidcheck tape -> integrator (RK Merson, RK3, RK2, RK Feldberg, Verlet, ExplicitEuler, SemiExplicitEuler, SemiExplicitEuler2, CPodes BDF, CPodes Adams) x options {final time none/random/short/== initial time, return-every-step, step limit 1..5, interpolation on/off, accuracy 1e-2..1e-6 or default, fixed step 2e-3..0.1, inf norm} x analytic system (0-3 linear z blocks with optional Givens mixing, 0-2 harmonic oscillators, 0-1 pendulum, 0-2 time-only event witnesses) x history of 3..40 requests stepTo/stepBy(report, scheduled) with report in {now, now+x, tiny, advanced time, final, beyond final, +inf}, scheduled in {inf, == report, == max(now,advanced), later, final}, interleaved with TimeStepper-style reinitialize (no-op / state modified / terminate) after scheduled-event or time-advanced returns. Preconditions by construction: report >= getTime(), scheduled >= max(getTime(), getAdvancedTime()), no report strictly inside an event window already announced, every request bounded. Non-trivial: the history contains at least two of {report == scheduled, report >= final, step limit hit, return-every-step, zero-length request}.";
+    c.assumptions = {"the contract model: public Integrator.h documentation + the property statement for all integrators; the step-communication state machine documented in IntegratorRep.h additionally for the eight AbstractIntegratorRep integrators (recorded as cpodes-note:* labels for CPodes)",
+                     "Integrator::StepFailed from CPodes (forced step size, stepTo(+inf) as very first step) is a clean refusal",
+                     "closed-form solutions of gen/anasys.h (state check is loose: 0.1 scaled, judged only for error-controlled order>=2 runs with accuracy <= 1e-4)"};
+    c.requiredLabels = {"integ:RungeKuttaMerson", "integ:RungeKutta3", "integ:RungeKutta2", "integ:RungeKuttaFeldberg", "integ:Verlet", "integ:ExplicitEuler", "integ:SemiExplicitEuler", "integ:SemiExplicitEuler2", "integ:CPodesBDF", "integ:CPodesAdams",
+                        "st:ReachedReportTime", "st:ReachedScheduledEvent", "st:TimeHasAdvanced", "st:ReachedStepLimit", "st:EndOfSimulation", "st:StartOfContinuousInterval", "st:ReachedEventTrigger",
+                        "hit:interpolated-state", "hit:end-of-simulation", "req:report==sched", "req:report>=final", "req:zero-length", "op:reinit-modified", "op:handler-terminates", "opt:nointerp"};
+    // ---- directed reproducers of the CPodes findings (each must FAIL while the defect exists)
+    c.directed.push_back({"cpodes-stale-fake-tstop", "cpodes-stale-fake-tstop", [](pbt::Ctx& ctx) {
+        anasys::AnaSystem sys(oscSpec(2)); State s0 = sys.initialState(); CPodesIntegrator integ(sys);
+        integ.setAllowInterpolation(false); integ.setFinalTime(0.7); integ.initialize(s0);
+        St a = integ.stepTo(0.0), b = integ.stepTo(0.3); double tb = integ.getTime(); St c2 = integ.stepTo(1.0); double tc = integ.getTime(); St d = integ.stepTo(1.0); double td = integ.getTime();
+        ctx.desc << "CPodes, interpolation off, final 0.7: stepTo(0)->" << stName(a) << "; stepTo(0.3)->" << stName(b) << " t=" << tb << "; stepTo(1.0)->" << stName(c2) << " t=" << tc << "; stepTo(1.0)->" << stName(d) << " t=" << td << "\n";
+        ctx.check(tb == 0.3 && c2 == Integrator::ReachedReportTime && tc == 0.7 && d == Integrator::EndOfSimulation && td == 0.7,
+                  "after a report at 0.3 the request stepTo(1.0) with final time 0.7 returned " + std::string(stName(c2)) + " at t=" + pbt::str(tc) + " and then " + stName(d) + " at t=" + pbt::str(td) + " (expected the final time 0.7)");
+    }});
+    c.directed.push_back({"cpodes-advanced-passes-scheduled", "cpodes-advanced-passes-scheduled", [](pbt::Ctx& ctx) {
+        anasys::AnaSystem sys(oscSpec(2)); State s0 = sys.initialState(); CPodesIntegrator integ(sys);
+        integ.setReturnEveryInternalStep(true); integ.initialize(s0); integ.stepTo(0.0);
+        double worst = 0, atSched = 0;
+        for (int k = 0; k < 5; ++k) { double sched = integ.getAdvancedTime() + 1e-9; integ.stepTo(sched, sched); if (integ.getAdvancedTime() - sched > worst) { worst = integ.getAdvancedTime() - sched; atSched = sched; } while (integ.getTime() < integ.getAdvancedTime()) integ.stepTo(integ.getAdvancedTime(), Infinity); }
+        ctx.desc << "CPodes, return-every-step: stepTo(report = scheduled = advanced + 1e-9): advanced state beyond the scheduled time by up to " << worst << " (scheduled " << atSched << ")\n";
+        ctx.check(worst <= 0, "advanced state passed the scheduled event time " + pbt::str(atSched) + " by " + pbt::str(worst));
+    }});
+    c.directed.push_back({"cpodes-final-at-interval-start", "cpodes-final-at-interval-start", [](pbt::Ctx& ctx) {
+        anasys::AnaSystem sys(oscSpec(2)); State s0 = sys.initialState(); CPodesIntegrator integ(sys);
+        integ.setFinalTime(0.0); integ.initialize(s0);
+        St a = integ.stepTo(0.0); St b = integ.stepTo(0.3); double tb = integ.getTime();
+        ctx.desc << "CPodes, final time == initial time 0: stepTo(0)->" << stName(a) << "; stepTo(0.3)->" << stName(b) << " t=" << tb << "\n";
+        ctx.check(tb <= 0.0, "final time 0 but stepTo(0.3) returned " + std::string(stName(b)) + " at t=" + pbt::str(tb));
+    }});
+    c.directed.push_back({"event-window-later-report-inside", "event-window-later-report-inside", [](pbt::Ctx& ctx) {
+        anasys::AnaSystem sys(oscSpec(2)); anasys::Witness w; w.c = 0.25; w.window = 0.0016; sys.addEventHandler(new anasys::WitnessHandler(w, 0, nullptr, anasys::Action(), 1, 1));
+        State s0 = sys.initialState(); RungeKuttaMersonIntegrator integ(sys); integ.initialize(s0);
+        St a = integ.stepTo(0.0), b = integ.stepTo(0.25 - 1e-11), c2 = integ.stepTo(0.25);
+        ctx.desc << "RK Merson, witness t-0.25: stepTo(0)->" << stName(a) << "; stepTo(0.25-1e-11)->" << stName(b) << " t=" << pbt::str(integ.getTime()) << "; stepTo(0.25)->" << stName(c2);
+        if (c2 != Integrator::ReachedEventTrigger) { ctx.desc << " (no trigger: scenario not reached)\n"; return; }
+        Vec2 win = integ.getEventWindow(); ctx.desc << " window (" << pbt::str(win[0]) << ", " << pbt::str(win[1]) << "]\n";
+        ctx.check(!(0.25 > win[0] && 0.25 < win[1]), "report time 0.25 lies strictly inside the reported event window (" + pbt::str(win[0]) + ", " + pbt::str(win[1]) + "]");
+    }});
+    c.directed.push_back({"cpodes-default-step-limit", "cpodes-default-step-limit", [](pbt::Ctx& ctx) {
+        anasys::AnaSystem sys(oscSpec(6)); State s0 = sys.initialState(); CPodesIntegrator integ(sys);
+        integ.setAccuracy(1e-6); integ.initialize(s0); integ.stepTo(0.0);
+        St a = integ.stepTo(200.0); int n = integ.getNumStepsTaken();
+        ctx.desc << "CPodes, no step limit, accuracy 1e-6, oscillator omega=6: stepTo(200)->" << stName(a) << " t=" << integ.getTime() << " after " << n << " steps\n";
+        ctx.check(a != Integrator::ReachedStepLimit, "ReachedStepLimit returned after " + std::to_string(n) + " internal steps although no step limit was set");
+    }});
     return c;
 }
 } // namespace
